@@ -60,7 +60,9 @@ func (c *ProviderContext) Clone() core.Context {
 // GetProviderContext returns the *reverse.ProviderContext bound to the context.
 func GetProviderContext(ctx context.Context) *ProviderContext {
 	if c, ok := core.FromContext(ctx); ok {
-		return c.(*ProviderContext)
+		if pc, ok := c.(*ProviderContext); ok {
+			return pc
+		}
 	}
 	return nil
 }
